@@ -33,6 +33,10 @@ type Scenario struct {
 	Cleanup func()
 	// Nontrivial classifies the run for evidence (e.g. "faults fired and data flowed").
 	Nontrivial func() bool
+	// Tag / TagSpace: for enumerating configurations, the identifier of the enumerated case this run
+	// executed and the size of the enumerated space (the coordinator reports covered / total).
+	Tag      string
+	TagSpace int
 }
 
 // BuildFunc builds a scenario from the tape inside the bubble.
@@ -62,6 +66,8 @@ type Result struct {
 	Trace      []string            `json:"trace,omitempty"`
 	Infra      string              `json:"infra,omitempty"`
 	AnonHooks  uint64              `json:"anon_hooks,omitempty"`
+	Tag        string              `json:"tag,omitempty"`
+	TagSpace   int                 `json:"tag_space,omitempty"`
 }
 
 // panicSink collects panics of registered goroutines (set per run).
@@ -126,6 +132,7 @@ func RunOne(t *testing.T, tape *Tape, config string, keepTrace bool, build Build
 			}
 			sc := build(w)
 			res.Desc = sc.Desc
+			res.Tag, res.TagSpace = sc.Tag, sc.TagSpace
 			reason := w.Run(sc.Horizon, sc.Done)
 			if sc.Final != nil && w.Viol == nil {
 				sc.Final(reason)
